@@ -92,7 +92,7 @@ def run(tier):
                 w["src"] = True
             wrapped.append(w)
             labels[w["id"]] = label
-    wrapped = ic.cap(wrapped, int(os.environ.get("VERIF_THOROUGH_CAP", "40000")))
+    wrapped = ic.cap(wrapped, int(os.environ.get("VERIF_THOROUGH_CAP", "25000")))
     preds, mstats = ic.predict(wrapped)
     fronts = ("c", "file", "stdin")
     results = ic.run_cases(wrapped, preds, fronts=fronts)
